@@ -2,6 +2,7 @@ package syntax
 
 import (
 	"context"
+	"fmt"
 	"io"
 	"os"
 	"path"
@@ -81,7 +82,7 @@ func ParseFileRecursively(file string) (<-chan directives.File, func(context.Con
 	return cpr.Produce(func(ctx context.Context, ch chan<- directives.File) error {
 		wg, ctx := errgroup.WithContext(ctx)
 		wg.Go(func() error {
-			res, err := parseRec(ctx, wg, ch, file)
+			res, err := parseRec(ctx, wg, ch, file, nil)
 			if err != nil {
 				return err
 			}
@@ -96,7 +97,14 @@ type Result struct {
 	Err  error
 }
 
-func parseRec(ctx context.Context, wg *errgroup.Group, resCh chan<- directives.File, file string) (directives.File, error) {
+func parseRec(ctx context.Context, wg *errgroup.Group, resCh chan<- directives.File, file string, ancestors []string) (directives.File, error) {
+	for _, a := range ancestors {
+		if path.Clean(a) == path.Clean(file) {
+			return directives.File{}, fmt.Errorf("include cycle: %s is included from itself (via %s)", file, ancestors[len(ancestors)-1])
+		}
+	}
+	// copy, as sibling includes extend the same chain concurrently
+	ancestors = append(ancestors[:len(ancestors):len(ancestors)], file)
 	text, err := os.ReadFile(file)
 	if err != nil {
 		return directives.File{}, err
@@ -109,7 +117,7 @@ func parseRec(ctx context.Context, wg *errgroup.Group, resCh chan<- directives.F
 		if inc, ok := d.Directive.(directives.Include); ok {
 			file := path.Join(filepath.Dir(file), inc.IncludePath.Content.Extract())
 			wg.Go(func() error {
-				res, err := parseRec(ctx, wg, resCh, file)
+				res, err := parseRec(ctx, wg, resCh, file, ancestors)
 				if err != nil {
 					return err
 				}
